@@ -2,7 +2,7 @@
    Statements only; proofs in Proofs/HandshakeP.v. *)
 From Coq Require Import List NArith Bool.
 From Coq Require Import ZArith.
-From WS Require Import Base.Words Gen.Consts Gen.FrameCode Model.Proto Model.Handshake Proofs.HandshakeP Proofs.GenTieP Gen.NegoCode Proofs.GenTie2P Gen.TakeoverCode Gen.HeaderCode.
+From WS Require Import Base.Words Gen.Consts Gen.FrameCode Model.Proto Model.Handshake Proofs.HandshakeP Proofs.GenTieP Gen.NegoCode Proofs.GenTie2P Gen.TakeoverCode Gen.HeaderCode Gen.ParseCode.
 Import ListNotations.
 
 (* server: compression only if enabled, and only from the FIRST permessage-deflate offer that is acceptable (earlier
@@ -128,3 +128,20 @@ Print Assumptions C14_writer_takeover_is_source.
 Theorem C14_rendering_is_source : forall c, render_copts c = gen_render_copts (cnct c) (snct c).
 Proof. exact render_copts_is_source. Qed.
 Print Assumptions C14_rendering_is_source.
+
+(* selectDeflate (accept.go, Gen/ParseCode.v): nothing in the disabled mode; otherwise the offers named permessage-deflate are tried in order and
+   the first one acceptDeflate accepts is the answer; offers are cut out of the header the way websocketExtensions cuts them *)
+Theorem C14_selection_is_source : forall es m,
+  select_deflate es m = if gen_select_disabled (mode_code m) then None else run_select gen_select_name es m.
+Proof. exact select_deflate_is_source. Qed.
+Print Assumptions C14_selection_is_source.
+
+Theorem C14_offers_are_cut_as_in_source : forall h,
+  hs_exts h = flat_map (fun t => match t with
+                                 | [] => []
+                                 | _ => match map hs_trim (hs_split gen_ext_sep t []) with
+                                        | n :: ps => [{| x_name := n; x_params := ps |}]
+                                        | [] => [] end
+                                 end) (hs_tokens h s_SecExtensions).
+Proof. exact hs_exts_is_source. Qed.
+Print Assumptions C14_offers_are_cut_as_in_source.
